@@ -54,6 +54,7 @@ class Gen:
         self.knots = []            # names of ordinary knots, in order
         self.tunnels = []          # names of tunnel knots
         self.functions = []        # (name, nparams, prints)
+        self.vfunctions = []       # (name, nparams): functions without a return value that print text
         self.labels = []           # (path, knotindex) labelled gathers that may be diverted to
         self.count_paths = []      # paths whose read count may be asked for
         self.loopvars = 0
@@ -251,6 +252,8 @@ class Gen:
             kinds += ["tunnel"] * 2
         if self.functions and self.has("function"):
             kinds += ["run"]
+        if self.vfunctions and self.has("function"):
+            kinds += ["vcall"] * 2
         if self.threads and not in_function and depth == 0 and self.has("thread"):
             kinds += ["thread"]
         if not in_function and self.has("temp") and self.p(0.2):
@@ -267,6 +270,17 @@ class Gen:
         if k == "run":
             f = r.choice(self.functions)
             return [["run", ["call", f[0], [self.int_expr(1, scope) for _ in range(f[1])]]]]
+        if k == "vcall":
+            f = r.choice(self.vfunctions)
+            call = ["call", f[0], [self.int_expr(1, scope) for _ in range(f[1])]]
+            shape = r.choice(["run", "alone", "after", "before"])
+            if shape == "run":
+                return [["run", call]]
+            if shape == "alone":
+                return [["line", [["p", call]]]]
+            if shape == "after":
+                return [["line", [["t", self.word().capitalize() + " "], ["p", call]]]]
+            return [["line", [["p", call], ["t", " " + self.words()]]]]
         if k == "tunnel":
             return [["tunnel", r.choice(self.tunnels), []]]
         if k == "thread":
@@ -534,7 +548,7 @@ class Gen:
         # functions first (they only use globals and their parameters)
         fknots = []
         if self.has("function"):
-            for i in range(r.choice([0, 1, 1, 2]) if size > 1 else r.choice([0, 1])):
+            for i in range(r.choice([0, 1, 2, 2, 3]) if size > 1 else r.choice([0, 1, 2])):
                 fknots.append(self.function("f" + str(i)))
         tknots = []
         if self.has("tunnel"):
@@ -624,12 +638,25 @@ class Gen:
         self.off |= {"tunnel", "function", "block_cond"} if not self.p(0.3) else {"tunnel", "function"}
         if not self.has("once_seq_in_function"):
             self.off.add("once_seq")         # B14: an exhausted once-only sequence corrupts the evaluation stack
-        for _ in range(r.randint(0, 2)):
-            if prints and self.p(0.6):
+        void = prints and self.p(0.4)
+        printers = [f for f in self.functions if f[2]] + [(f[0], f[1], True) for f in self.vfunctions]
+        for _ in range(r.randint(0, 2) if not void else r.randint(1, 3)):
+            if prints and printers and self.p(0.35):
+                # a line that begins with the text of another function (the outer function has printed nothing yet)
+                g = r.choice(printers)
+                parts = [["p", ["call", g[0], [self.int_expr(1, params) for _ in range(g[1])]]]]
+                if self.p(0.4):
+                    parts.append(["t", " " + self.words()])
+                stmts.append(["line", parts])
+            elif prints and self.p(0.6):
                 stmts.append(self.line(params, in_function=True))
             else:
                 stmts.append(self.assignment(params))
         self.off = saved_off
+        if void:
+            self.vfunctions.append((name, nparams))
+            return {"name": name, "params": params, "function": True,
+                    "body": [{"label": None, "stmts": stmts, "choices": []}], "stitches": []}
         stmts.append(["ret", self.int_expr(0, params)])
         self.functions.append((name, nparams, prints))
         return {"name": name, "params": params, "function": True,
